@@ -30,8 +30,8 @@ ASSUMPTIONS = [
     "trimesh/manifold3d mesh construction of the operands (union of boxes) is trusted",
 ]
 MIN_COUNTERS = {
-    "quick": {"pairs_run": 500, "op_results_checked": 600, "membership_compared": 40000, "distance_compared": 8000, "intersects_definite": 250, "projections_compared": 60, "containsRegion_definite": 60, "aabb_compared": 300, "lazy_results_checked": 40},
-    "thorough": {"pairs_run": 8000, "op_results_checked": 9000, "membership_compared": 600000, "distance_compared": 100000, "intersects_definite": 4000, "projections_compared": 1000, "containsRegion_definite": 1000, "aabb_compared": 5000, "lazy_results_checked": 600},
+    "quick": {"pairs_run": 500, "op_results_checked": 600, "membership_compared": 40000, "distance_compared": 8000, "intersects_definite": 250, "projections_compared": 60, "containsRegion_definite": 60, "aabb_compared": 300, "lazy_results_checked": 40, "nested_results_checked": 150},
+    "thorough": {"pairs_run": 6000, "op_results_checked": 9000, "membership_compared": 600000, "distance_compared": 100000, "intersects_definite": 3000, "projections_compared": 800, "containsRegion_definite": 800, "aabb_compared": 4000, "lazy_results_checked": 600, "nested_results_checked": 2000},
 }
 MANIFEST_ENTRY = {
     "technique": "runtime monitoring: invariant-at-the-API-boundary with an independent construction-data oracle (three-valued membership, exact distances) over all ordered pairs of region kinds",
@@ -51,7 +51,7 @@ MESHY = ("box", "spheroid", "meshvol", "meshsurf", "view")
 def plan(tier, seed):
     from rt import regionoracle as ro
 
-    n_inst = 2 if tier == "quick" else 30
+    n_inst = 2 if tier == "quick" else 24
     nsh = 16 if tier == "quick" else 64
     tasks = []
     for i, ka in enumerate(ro.KINDS):
@@ -185,7 +185,7 @@ class Mon:
 
     def alt_for(self, X):
         for key, which, alt in getattr(self, "alts", ()):
-            if alt.params is X.params:
+            if which != "BOTH" and alt.params is X.params:
                 return key, alt
         return None
 
@@ -291,9 +291,15 @@ class _PolylineAsImplemented:
     """the polyline oracle, except that points the library's own exact predicate rejects count as non-members"""
 
     has_dist = False
+    kind = "polyline"
+    planar_z = None
 
     def __init__(self, X, SX):
         self.X, self.SX, self.params = X, SX, X.params
+        self.eps, self.dim = X.eps, X.dim
+
+    def describe(self):
+        return self.X.describe()
 
     def member(self, P):
         from rt.regionrun import V
@@ -312,7 +318,7 @@ def explain_point(mon, op, A, B, p, obs, contains_call=False):
     for key, which, alt in getattr(mon, "alts", ()):
         if key == POLYLINE_EXACT and not contains_call:
             continue  # only explains answers of containsPoint itself
-        A2, B2 = (alt, B) if which == "A" else (A, alt)
+        A2, B2 = alt if which == "BOTH" else (alt, B) if which == "A" else (A, alt)
         P1 = np.asarray(p, float)[None]
         if op is None:
             e = alt.member(P1)
@@ -748,7 +754,7 @@ def dist_probe(mon, R, rc, op, A, B, p, d, tol):
     for key, which, alt in getattr(mon, "alts", ()):
         if key == POLYLINE_EXACT:
             continue
-        A2, B2 = (alt, B) if which == "A" else (A, alt)
+        A2, B2 = alt if which == "BOTH" else (alt, B) if which == "A" else (A, alt)
         P1 = np.asarray(p, float)[None]
         e = _comb(op, A2.member(P1), B2.member(P1))[0]
         if not (A2.has_dist and B2.has_dist):
@@ -886,6 +892,34 @@ def check_case(case, C, S):
             continue
         results[op] = R
         check_result(mon, R, op, A, B, P, mA, mB, fA, fB, dA, dB, rng)
+
+    # --- one nested composition (depth 2): (A op1 B) op2 X with X one of the operands
+    if results and mon.viol:
+        mon.bump("nested_skipped_operands_or_inner_result_already_wrong")
+    if results and not mon.viol:
+        op1 = list(results)[int(rng.integers(0, len(results)))]
+        op2 = OPS[int(rng.integers(0, 3))]
+        which = "A" if rng.random() < 0.5 else "B"
+        X, SXr, mX, fX = (A, SA, mA, fA) if which == "A" else (B, SB, mB, fB)
+        R1 = results[op1]
+        if _rclass(R1) not in ("EmptyRegion", "AllRegion"):
+            k, R2 = outcome(getattr(R1, OPNAME[op2]), SXr)
+            if k == "unsupported":
+                mon.bump("nested_op_not_accepted")
+            elif k != "ok":
+                mon.report("op.error", f"(A.{OPNAME[op1]}(B)).{OPNAME[op2]}({which}) raised {R2}; A={_short(A)} B={_short(B)}", {"op": op2, "error": R2, "nested": True})
+            else:
+                mon.bump("nested_results_checked")
+                inner = ro.Combo(op1, A, B)
+                sel = rng.permutation(len(P))[: max(20, len(P) // 4)]
+                m1, f1 = _comb(op1, mA, mB), _comb(op1, fA, fB)
+                saved = mon.alts
+                mon.alts = []
+                for key, w_, alt in saved:
+                    A2, B2 = (alt, B) if w_ == "A" else (A, alt)
+                    mon.alts.append((key, "BOTH", (ro.Combo(op1, A2, B2), A2 if which == "A" else B2)))
+                check_result(mon, R2, op2, inner, X, P[sel], m1[sel], mX[sel], f1[sel], fX[sel], None, None, rng, label=f"[nested: A:=(A.{OPNAME[op1]}(B)), B:={which}]")
+                mon.alts = saved
 
     # --- intersects
     k, r = outcome(SA.intersects, SB)
